@@ -158,6 +158,10 @@ func (g *GhostDB) keyFacts(st *State, t *Table, row, k Term) {
 		kc := t.col(t.Key)
 		st.assume(Implies(rowPresent(t.Name, row), Eq(colSel(t.Name, t.Key, row, kc.Sort), optSome(kc.Sort, k))))
 	}
+	if _, ok := g.x.prog.spec.sigs["rowassume."+t.Name]; ok {
+		st.assume(Implies(rowPresent(t.Name, row), App(SBool, "rowassume."+t.Name, row)))
+		g.x.notes["ASSUMED: rowassume."+t.Name+" (bounds on stored counters, see spec/30_rely.smt2)"] = true
+	}
 	if _, ok := g.x.prog.spec.sigs["rowinv."+t.Name]; ok {
 		st.assume(Implies(rowPresent(t.Name, row), App(SBool, "rowinv."+t.Name, row)))
 	}
